@@ -47,12 +47,87 @@ Periods   == {<<1, 1000>>, <<1, 1>>, <<60, 1>>, <<1, 3>>}
 Durations == [rep : {"short", "int", "llong", "double"}, per : Periods]
 DurSum(d1, d2) == [rep |-> CT2(d1.rep, d2.rep), per |-> <<GCD(d1.per[1], d2.per[1]), LCM(d1.per[2], d2.per[2])>>]
 
+(* ======================= round 3: the rest of the public traits (all ADVISORY) ======================= *)
+(* ---- the six classification traits xtl::is_scalar / is_arithmetic / is_fundamental / is_signed /      *)
+(* is_floating_point / is_integral: the std trait of the same name ([meta.unary]), extended so that       *)
+(* half_float counts as a signed floating-point arithmetic scalar (xhalf_float.hpp).  "any": left open.   *)
+ClsBuiltin == {"bool", "char", "uchar", "int", "uint", "llong", "float", "double", "ldouble"}
+ClsOther   == {"cint", "ptr", "enum", "class", "nullptr", "lref", "void", "half", "chalf", "xcomplex", "stdcomplex", "xoptional", "xmasked"}
+B3(b) == IF b THEN "T" ELSE "F"
+Classify(t) ==
+    CASE t \in ClsBuiltin -> [scalar |-> "T", arithmetic |-> "T", fundamental |-> "T", signed |-> B3(Signed(t)),
+                              floating |-> B3(t \in FloatSet), integral |-> B3(t \in Integral)]
+      [] t = "cint"    -> [scalar |-> "T", arithmetic |-> "T", fundamental |-> "T", signed |-> "T", floating |-> "F", integral |-> "T"]
+      [] t \in {"ptr", "enum"} -> [scalar |-> "T", arithmetic |-> "F", fundamental |-> "F", signed |-> "F", floating |-> "F", integral |-> "F"]
+      [] t = "nullptr" -> [scalar |-> "T", arithmetic |-> "F", fundamental |-> "T", signed |-> "F", floating |-> "F", integral |-> "F"]
+      [] t = "void"    -> [scalar |-> "F", arithmetic |-> "F", fundamental |-> "T", signed |-> "F", floating |-> "F", integral |-> "F"]
+      [] t = "half"    -> [scalar |-> "T", arithmetic |-> "T", fundamental |-> "any", signed |-> "T", floating |-> "T", integral |-> "F"]
+      [] t = "chalf"   -> [scalar |-> "any", arithmetic |-> "any", fundamental |-> "any", signed |-> "any", floating |-> "any", integral |-> "F"]
+      [] OTHER         -> [scalar |-> "F", arithmetic |-> "F", fundamental |-> "F", signed |-> "F", floating |-> "F", integral |-> "F"]
+ScalarX == {"int", "half", "ptr"}
+AllScalarX(ks) == \A i \in DOMAIN ks : ks[i] \in ScalarX
+
+(* ---- promote_type with half_float: the half library documents that arithmetic between a half and any    *)
+(* builtin arithmetic type is carried out in half; with a std::complex in the pack: complex of that.        *)
+HalfPackTypes == {T("half")} \cup {T(x) : x \in {"bool", "int", "ullong", "float", "double", "ldouble"}}
+                 \cup {Tm("complex", <<T(f)>>) : f \in {"float", "double"}}
+PromoteHalf(pk) == IF HasComplex(pk) THEN Tm("complex", <<T("half")>>) ELSE T("half")
+(* ---- promote_type with xcomplex<R, R>: hand-derived in the spirit of the statement - a complex of the   *)
+(* promotion of all component types, never nested, whatever the argument order.                             *)
+XcTypes == {Tm("xcomplex", <<T(f)>>) : f \in {"float", "double"}}
+XcPackTypes == XcTypes \cup {T(x) : x \in {"int", "float", "double"}}
+XcComponent(t) == IF t.n = "xcomplex" THEN t.a[1].n ELSE t.n
+PromoteXc(pk) == Tm("xcomplex", <<T(FoldAdd([i \in DOMAIN pk |-> XcComponent(pk[i])]))>>)
+(* ---- big/real_promote_type look through cv and references (they are applied to expression types)        *)
+DecayForms == {"const", "constref"}
+(* ---- xoptional / xmasked_value / complex detection                                                       *)
+OptKinds == {"int", "xoptional", "xoptionalc", "xmasked", "stdcomplex"}
+IsOptKind(k) == k \in {"xoptional", "xoptionalc"}
+CxKinds == {"double", "stdcomplex", "xcomplex", "stdcomplexcref", "xcomplexcref", "xoptional"}
+(* ---- logical traits on trait classes whose member `value` is an int (2 or 0): [meta.logical] converts   *)
+(* with bool(Bi::value), and the selected base class is still Bi itself.                                    *)
+ValI(b) == CASE b \in {"T1", "I2"} -> TRUE [] b \in {"F1", "I0"} -> FALSE
+RECURSIVE ConjScanI(_, _)
+ConjScanI(s, i) == IF i = Len(s) THEN i ELSE IF ValI(s[i]) THEN ConjScanI(s, i + 1) ELSE i
+RECURSIVE DisjScanI(_, _)
+DisjScanI(s, i) == IF i = Len(s) THEN i ELSE IF ValI(s[i]) THEN i ELSE DisjScanI(s, i + 1)
+LogicInt(s) == [conj |-> [sel |-> ConjScanI(s, 1), value |-> ValI(s[ConjScanI(s, 1)])],
+                disj |-> [sel |-> DisjScanI(s, 1), value |-> ValI(s[DisjScanI(s, 1)])]]
+IntArgs == {s \in UNION {[1..m -> {"T1", "F1", "I2", "I0"}] : m \in 1..3} : \E i \in DOMAIN s : s[i] \in {"I2", "I0"}}
+
+DoClassify(t)       == Call("Classify", [t |-> t], One(Classify(t)))
+DoAllScalarX(ks)    == Call("AllScalarX", [kinds |-> ks], One(AllScalarX(ks)))
+DoPromoteHalf(pk)   == (\E i \in DOMAIN pk : pk[i] = T("half")) /\ Call("PromoteHalf", [pack |-> pk], One(PromoteHalf(pk)))
+DoPromoteXc(pk)     == (\E i \in DOMAIN pk : pk[i] \in XcTypes) /\ Call("PromoteXc", [pack |-> pk], One(PromoteXc(pk)))
+DoPromoteEmpty      == Call("PromoteEmpty", [z |-> 0], One(T("void")))
+DoBigPromoteCv(q, x)  == Call("BigPromoteCv", [t |-> Tm(q, <<T(x)>>)], One(BigPromote(T(x))))
+DoRealPromoteCv(q, x) == Call("RealPromoteCv", [t |-> Tm(q, <<T(x)>>)], One(RealPromote(T(x))))
+DoOptTraits(ks)     == Call("OptTraits", [kinds |-> ks],
+                            One([is_xoptional |-> IsOptKind(ks[1]), is_xmasked |-> ks[1] = "xmasked",
+                                 neither |-> ~IsOptKind(ks[1]) /\ ks[1] # "xmasked",
+                                 at_least_one |-> \E i \in DOMAIN ks : IsOptKind(ks[i])]))
+DoComplexTraits(k)  == Call("ComplexTraits", [k |-> k],
+                            One([is_complex |-> k \in {"stdcomplex", "stdcomplexcref"}, is_xcomplex |-> k \in {"xcomplex", "xcomplexcref"},
+                                 is_gen_complex |-> k \in {"stdcomplex", "stdcomplexcref", "xcomplex", "xcomplexcref"}]))
+DoLogicInt(s)       == Call("LogicInt", [args |-> s], One(LogicInt(s)))
+DoNegationInt(b)    == Call("NegationInt", [arg |-> b], One(~ValI(b)))
+
 DoCommonOptional(args) == Call("CommonOptional", [args |-> args], One(CommonOptional(args)))
 DoChronoPromote(d1, d2) == Call("ChronoPromote", [d1 |-> d1, d2 |-> d2], One(DurSum(d1, d2)))
 
 XNext == /\ last.op = "Init"
          /\ \/ \E args \in UNION {[1..m -> OptArgs] : m \in 1..MaxPack} : DoCommonOptional(args)
             \/ \E d1, d2 \in Durations : DoChronoPromote(d1, d2)
+            \/ \E t \in ClsBuiltin \cup ClsOther : DoClassify(t)
+            \/ \E ks \in UNION {[1..m -> {"int", "half", "ptr", "xcomplex", "xoptional", "stdcomplex"}] : m \in 1..2} : DoAllScalarX(ks)
+            \/ \E pk \in UNION {[1..m -> HalfPackTypes] : m \in 1..MaxPack} : DoPromoteHalf(pk)
+            \/ \E pk \in UNION {[1..m -> XcPackTypes] : m \in 1..MaxPack} : DoPromoteXc(pk)
+            \/ DoPromoteEmpty
+            \/ \E q \in DecayForms, x \in {"bool", "char", "int", "uint", "float", "ldouble"} : DoBigPromoteCv(q, x) \/ DoRealPromoteCv(q, x)
+            \/ \E ks \in UNION {[1..m -> OptKinds] : m \in 1..2} : DoOptTraits(ks)
+            \/ \E k \in CxKinds : DoComplexTraits(k)
+            \/ \E s \in IntArgs : DoLogicInt(s)
+            \/ \E b \in {"I2", "I0"} : DoNegationInt(b)
 XSpec == Init /\ [][XNext]_vars
 
 ExtraLaws ==
@@ -61,6 +136,14 @@ ExtraLaws ==
     /\ \A d1, d2 \in Durations : /\ DurSum(d1, d2) = DurSum(d2, d1)
                                  /\ DurSum(d1, d1) = d1
                                  /\ d1.per[1] % DurSum(d1, d2).per[1] = 0        \* both periods are whole multiples of the common one
+    /\ \A t \in ClsBuiltin : Classify(t).floating = "T" => Classify(t).signed = "T" /\ Classify(t).integral = "F"
+    /\ \A t \in ClsBuiltin \cup ClsOther : /\ Classify(t).arithmetic = "T" => Classify(t).scalar = "T"
+                                           /\ Classify(t).integral = "T" => Classify(t).arithmetic = "T"
+                                           /\ (Classify(t).signed = "T" \/ Classify(t).floating = "T") => Classify(t).arithmetic = "T"
+    /\ \A pk \in UNION {[1..m -> XcPackTypes] : m \in 1..2} :
+          Len(pk) = 2 => PromoteXc(pk) = PromoteXc(<<pk[2], pk[1]>>)                 \* every argument order
+    /\ \A s \in IntArgs : /\ LogicInt(s).conj.value = (\A i \in DOMAIN s : ValI(s[i]))
+                           /\ LogicInt(s).disj.value = (\E i \in DOMAIN s : ValI(s[i]))
     /\ GCD(60, 1) = 1 /\ GCD(12, 18) = 6 /\ LCM(1000, 3) = 3000 /\ LCM(4, 6) = 12
 ASSUME ExtraLaws
 =============================================================================
